@@ -56,7 +56,7 @@ OUTPUT_TYPES = {
     "PartitionAndSumsTuple": out.PartitionAndSumsTuple, "PartitionAndSums": out.PartitionAndSums,
 }
 SUMS_ONLY_TYPES = ["Sums", "LargestSum", "SmallestSum", "ExtremeSums", "SortedSums", "Difference", "BinCount"]
-PRESENTATIONS = ["list", "array", "dict-str", "dict-int", "names", "names-array"]
+PRESENTATIONS = ["list", "array", "dict-str", "dict-int", "names", "names-array", "dict-mixed"]
 
 
 def kind_of(alg):
@@ -220,6 +220,11 @@ def present(values, pres="list", nseed=0, den=1):
         return Presented(d, None, names, dict(zip(names, ev)), pres)
     if pres == "dict-int":
         names = int_names(values, nseed)
+        d = {nm: table_value(v, den, nseed, top) for nm, v in zip(names, values)}
+        return Presented(d, None, names, dict(zip(names, ev)), pres)
+    if pres == "dict-mixed":        # a dict whose keys are strings AND integers (both are documented kinds of names; nothing says one kind per input)
+        sn, im = str_names(values, nseed), int_names(values, nseed)
+        names = [sn[j] if (j + nseed) % 2 else im[j] for j in range(len(values))]
         d = {nm: table_value(v, den, nseed, top) for nm, v in zip(names, values)}
         return Presented(d, None, names, dict(zip(names, ev)), pres)
     if pres == "names":
